@@ -460,6 +460,29 @@ class _NP:
 
     amin = min
 
+    def moveaxis(self, x, source, destination):
+        x = _lift(x)
+        if not isinstance(x, SymArr):
+            return _np.moveaxis(x, source, destination)
+        nd = x.ndim
+        src, dst = source % nd, destination % nd
+        order = [i for i in range(nd) if i != src]
+        order.insert(dst, src)
+        return x.transpose(*order)
+
+    def clip(self, x, lo, hi, out=None):
+        if out is not None:
+            raise paths.OutOfReach("np.clip with out=")
+
+        def f(v, a, b):
+            e = to_expr(v)
+            if a is not None:
+                e = sp.Max(e, to_expr(a))
+            if b is not None:
+                e = sp.Min(e, to_expr(b))
+            return wrap(e)
+        return _ew(lambda v: f(v, lo, hi), x)
+
     def ptp(self, x, axis=None):
         return self.max(x, axis=axis) - self.min(x, axis=axis)
 
